@@ -302,3 +302,63 @@ def replay_registry(payload):
                 'expected': str(exp), 'other_root_entry': str(reg.get(other_root)), 'reproduced': bool(bad)}
     finally:
         reg.clear()
+
+
+def usage_structural(rep, prop='C12'):
+    """C12.mod.usage (structural): every use of `_modifying()` in src/fst releases the registry on all paths: it is a
+    `with` item (the proved __exit__ releases exactly once and propagates the exception), or a manual
+    `<v> = X._modifying(...).enter()` inside a `try` whose bare `except:` calls `<v>.fail()` and re-raises and whose
+    `else:` calls `<v>.success()`."""
+    import ast
+    import glob
+    import os
+    from pyvc import frontend
+    n_sites = 0
+    for path in sorted(glob.glob(os.path.join(frontend.SRC, '*.py'))):
+        modname = os.path.basename(path)[:-3]
+        mod = frontend.module(modname)
+        parents = {}
+        for p in ast.walk(mod.tree):
+            for c in ast.iter_child_nodes(p):
+                parents[id(c)] = p
+        for n in ast.walk(mod.tree):
+            if not (isinstance(n, ast.Call) and isinstance(n.func, ast.Attribute) and n.func.attr == '_modifying'):
+                continue
+            n_sites += 1
+            name = f'{prop}.mod.usage.{modname}.L{n.lineno}'
+            p = parents.get(id(n))
+            ok, why = False, ''
+            if isinstance(p, ast.withitem) and p.context_expr is n:
+                ok, why = True, 'with item'
+            elif isinstance(p, ast.Attribute) and p.attr == 'enter':
+                # find `<v> = ....enter()` and the enclosing try
+                q = parents.get(id(p))
+                stmt = q
+                while stmt is not None and not isinstance(stmt, ast.stmt):
+                    stmt = parents.get(id(stmt))
+                var = None
+                if isinstance(stmt, ast.Assign) and isinstance(stmt.targets[0], ast.Name):
+                    var = stmt.targets[0].id
+                t = stmt
+                while t is not None and not isinstance(t, ast.Try):
+                    t = parents.get(id(t))
+                if var and isinstance(t, ast.Try):
+                    def calls(body, meth):
+                        return any(isinstance(c, ast.Call) and isinstance(c.func, ast.Attribute) and c.func.attr == meth
+                                   and isinstance(c.func.value, ast.Name) and c.func.value.id == var
+                                   for s in body for c in ast.walk(s))
+                    bare = [h for h in t.handlers if h.type is None]
+                    ok = (len(t.handlers) == 1 and len(bare) == 1 and calls(bare[0].body, 'fail')
+                          and isinstance(bare[0].body[-1], ast.Raise) and bare[0].body[-1].exc is None
+                          and calls(t.orelse, 'success') and not calls(t.body, 'success'))
+                    why = f'manual enter of {var!r} in try/except/else'
+                else:
+                    why = 'manual enter() outside a try/except/else'
+            else:
+                why = 'neither a with item nor a guarded manual enter()'
+            rep.other('structural', name, ok, detail=why, key=f'{prop}.mod.usage.{modname}',
+                      replay={'site': f'{modname}.py:{n.lineno}', 'why': why,
+                              'verifier_output': 'structural analysis: a _modifying() use that may not be released on every path'})
+    if n_sites < 10:
+        rep.checker_error(f'only {n_sites} _modifying() uses found (anchor changed?)')
+    rep.extra['modifying_sites'] = n_sites
